@@ -87,7 +87,7 @@ func verifScriptAnswer(expected string, resumeFrom int) verifAnswer {
 	case 2: // 200 with some other body (truncated, padded, corrupted, substituted)
 		ans.status = 200
 		ans.body = verifNondetString("wrong.body")
-		verifAssume(len(ans.body) <= 40)
+		verifAssume(len(ans.body) <= 48)
 	case 3: // 206 with a range header and the suffix from an arbitrary offset
 		ans.status = 206
 		start := verifNondetString("range.start")
@@ -95,12 +95,12 @@ func verifScriptAnswer(expected string, resumeFrom int) verifAnswer {
 		verifAssume(len(start) >= 1 && len(start) <= 3)
 		ans.contentRange = "bytes " + start + "-9/10"
 		ans.body = verifNondetString("range.body")
-		verifAssume(len(ans.body) <= 40)
+		verifAssume(len(ans.body) <= 48)
 	case 4: // 206 without or with a malformed Content-Range
 		ans.status = 206
 		ans.contentRange = []string{"", "bytes x-y/z", "items 0-1/2"}[verifChoose("bad.range", 3)]
 		ans.body = verifNondetString("range.body")
-		verifAssume(len(ans.body) <= 40)
+		verifAssume(len(ans.body) <= 48)
 	case 5: // error status
 		ans.status = []int{416, 429, 500, 404}[verifChoose("error.status", 4)]
 	}
@@ -120,8 +120,10 @@ func verifScriptAnswer(expected string, resumeFrom int) verifAnswer {
 func VerifC02_BasicDownload() {
 	root := verifTempDir()
 	a := &basicDownloadAdapter{&adapterBase{fs: fs.New(verifNoEnv{}, root+"/.git", root, root+"/lfs", 0644)}}
-	expected := verifNondetString("object.content")
-	verifAssume(len(expected) >= 1 && len(expected) <= 40)
+	// the object itself is one fixed byte string (its bytes never matter, only
+	// equality with what the server sends and with what is stored); everything
+	// the server and the file system contribute is arbitrary
+	expected := "The quick brown fox jumps over the lazy dog"
 	oid := verifHashHex([]byte(expected))
 	path := root + "/lfs/objects/final-" + "object"
 	t := &Transfer{Name: "file.bin", Oid: oid, Size: int64(len(expected)), Path: path,
